@@ -298,6 +298,21 @@ def F16():
     return witnesses_c18.K7()
 
 
+def F18():
+    """C15: month values beyond int()'s digit limit made the month middlewares raise"""
+    from bibtexparser.middlewares import MonthIntMiddleware, MonthAbbreviationMiddleware, MonthLongStringMiddleware
+    from bibtexparser.model import Entry, Field
+    from bibtexparser.library import Library
+    got = []
+    for v, exp in (("0" * 4300 + "1", [1, "jan", "January"]), (10 ** 4300, None), ("1" * 4301, None)):
+        for i, M in enumerate((MonthIntMiddleware, MonthAbbreviationMiddleware, MonthLongStringMiddleware)):
+            r = M().transform(Library([Entry("article", "k", [Field("month", v)])])).blocks[0]["month"]
+            want = v if exp is None else exp[i]
+            if not (type(r) is type(want) and r == want):
+                got.append((M.__name__, str(v)[:8] + "...", str(r)[:12]))
+    return not got, "wrong results: %r" % (got[:3],)
+
+
 def F17():
     """C07: SortFieldsCustomMiddleware stores its own order list in every entry's metadata"""
     from bibtexparser.middlewares import SortFieldsCustomMiddleware
@@ -312,7 +327,7 @@ def F17():
     return not shared, "output metadata list is the input's / the middleware's own list: %r" % shared
 
 
-ALL = [F1, F2, F3, F4, F5, F6, F7, F8, F9, F10, F11, F12, F13, F14, F15, F16, F17, K1, K2, K3, K4, K5, K6, K7, K8, K9]
+ALL = [F1, F2, F3, F4, F5, F6, F7, F8, F9, F10, F11, F12, F13, F14, F15, F16, F17, F18, K1, K2, K3, K4, K5, K6, K7, K8, K9]
 
 if __name__ == "__main__":
     import bibtexparser
